@@ -233,6 +233,11 @@ def run(ctx) -> None:
     tests = [n for n in g.nodes if n.kind == "test" and isinstance(n.ast, ast.Compare) and unparse(n.ast.left) in (plv.params[0], low_var) and isinstance(n.ast.ops[0], (ast.Eq, ast.In))
              and isinstance(n.ast.comparators[0], (ast.Constant, ast.List, ast.Tuple, ast.Set))]
     ok = len(lowers) == 1 and bool(tests) and all(unparse(t.ast.left) == low_var and t.id not in g.reachable(blocked_nodes=[lowers[0].id]) for t in tests)
+    if len(lowers) == 1 and not tests:
+        # table form: the lookup `TABLE.get(x, x)` reads the lower-cased variable after the assignment
+        gets = [n for n in g.nodes if n.kind == "stmt" and n.ast is not None and any(isinstance(c_, ast.Call) and isinstance(c_.func, ast.Attribute) and c_.func.attr == "get"
+                                                                                 and len(c_.args) == 2 and unparse(c_.args[0]) == low_var for c_ in ast.walk(n.ast)) and n.id != lowers[0].id]
+        ok = bool(gets) and all(n.id not in g.reachable(blocked_nodes=[lowers[0].id]) for n in gets)
     ctx.check("R7", ok, "_parse_letter_version lower-cases the letter before comparing spellings (the regex is case-insensitive)",
               f"{M}._parse_letter_version: alternate spellings are compared before lower-casing", "e.g. 1.0ALPHA1 is not normalised to 1.0a1", loc=plv.loc(), witness="1.0ALPHA1")
 
